@@ -703,7 +703,17 @@ struct __gmp_binary_divides
   static void eval(mpz_ptr z, mpir_si l, mpz_srcptr w)
   {
     if (mpz_fits_si_p(w))
-      mpz_set_si(z, l / mpz_get_si(w));
+      {
+        mpir_si d = mpz_get_si(w);
+        if (d == -1)
+          {
+            /* l / -1 overflows (and traps) for the most negative l */
+            mpz_set_si(z, l);
+            mpz_neg(z, z);
+          }
+        else
+          mpz_set_si(z, l / d);
+      }
     else
       {
         /* if w is bigger than a long then the quotient must be zero, unless
@@ -847,7 +857,11 @@ struct __gmp_binary_modulus
   static void eval(mpz_ptr z, mpir_si l, mpz_srcptr w)
   {
     if (mpz_fits_si_p(w))
-      mpz_set_si(z, l % mpz_get_si(w));
+      {
+        mpir_si d = mpz_get_si(w);
+        /* l % -1 traps for the most negative l; the remainder is 0 */
+        mpz_set_si(z, d == -1 ? 0 : l % d);
+      }
     else
       {
         /* if w is bigger than a long then the remainder is l unchanged,
